@@ -183,12 +183,18 @@ def residual_string(p):
     return rf.pstr(p, core.CTX.__dict__.get('_vname', {}))
 
 
-def prove_zero(node, expand=False):
-    """(proved: bool, residual_string_or_None, seconds)"""
+def prove_zero(node, expand=False, budget_s=30.0):
+    """(proved: bool | None, residual_string_or_None, seconds); None = budget exceeded"""
     t0 = time.time()
-    n, d = convert(node, expand)
-    if n:
-        n = reduce_numer(n, expand)
+    rf.set_budget(budget_s)
+    try:
+        n, d = convert(node, expand)
+        if n:
+            n = reduce_numer(n, expand)
+    except rf.BudgetExceeded as e:
+        return None, f'undecided: {e}', time.time() - t0
+    finally:
+        rf.set_budget(None)
     if not n:
         return True, None, time.time() - t0
     return False, residual_string(n), time.time() - t0
@@ -205,7 +211,7 @@ def prove_eq(lhs, rhs, block=None):
     (sound: an affine form vanishes identically iff every coefficient does).
     Abstraction atoms are first kept opaque (modular proof); when that fails
     their definitions are expanded.
-    Returns dict(proved, parts, failed=[(key, residual)], seconds, method)."""
+    Returns dict(proved (True/False/None=budget), parts, failed, seconds, method)."""
     t0 = time.time()
     diff = core.sub(lhs, rhs)
     modes = [False, True] if has_abstractions(diff) else [False]
@@ -216,11 +222,15 @@ def prove_eq(lhs, rhs, block=None):
             try:
                 parts = affine_split(diff, block)
                 failed = []
+                und = False
                 for k, cnode in parts.items():
                     ok, r, _ = prove_zero(cnode, expand)
-                    if not ok:
+                    if ok is None:
+                        und = True
                         failed.append((k, r))
-                res = dict(proved=not failed, parts=len(parts), failed=failed,
+                    elif not ok:
+                        failed.append((k, r))
+                res = dict(proved=(None if und else not failed), parts=len(parts), failed=failed,
                            seconds=time.time() - t0, method='normaliser/affine' + tag)
                 if res['proved']:
                     return res
